@@ -94,17 +94,18 @@ pub open spec fn rhs_of(s: PathSegment, self_ty: Type) -> Type {
 pub uninterp spec fn parsed(t: TokenStream) -> Result<ArgList>;
 #[verifier::external_body] pub fn parse2(t: TokenStream) -> (r: Result<ArgList>) ensures r == parsed(t) { unimplemented!() }
 pub uninterp spec fn op_of(i: Ident) -> Result<Op>;
-#[verifier::external_body] pub fn vec_extend_owned<T>(v: &mut Vec<T>, o: Vec<T>) ensures final(v)@ == old(v)@ + o@ { unimplemented!() }
-/// all trait names of the first n lists, in order
-pub open spec fn all_items(attrs: Seq<TokenStream>, n: int) -> Seq<Ident> decreases n {
-    if n <= 0 { Seq::empty() } else { all_items(attrs, n - 1) + (parsed(attrs[n - 1])->Ok_0).items@ }
-}
-pub open spec fn any_dump(attrs: Seq<TokenStream>, n: int) -> bool decreases n {
-    if n <= 0 { false } else { any_dump(attrs, n - 1) || (parsed(attrs[n - 1])->Ok_0).dump }
-}
+pub open spec fn lst(attrs: Seq<TokenStream>, i: int) -> ArgList { parsed(attrs[i])->Ok_0 }
 pub open spec fn all_parse(attrs: Seq<TokenStream>, n: int) -> bool { forall|i: int| 0 <= i < n ==> parsed(attrs[i]) is Ok }
+pub open spec fn any_dump(attrs: Seq<TokenStream>, n: int) -> bool decreases n { if n <= 0 { false } else { any_dump(attrs, n - 1) || lst(attrs, n - 1).dump } }
 pub open spec fn item_ok(i: Ident, op: Op) -> bool { op_of(i) is Ok && (op_of(i)->Ok_0).op == op.op }
-pub open spec fn has_form(items: Seq<Ident>, n: int, f: OpForm) -> bool { exists|i: int| 0 <= i < n && (op_of(items[i])->Ok_0).form == f }
+pub open spec fn list_ok(l: ArgList, m: int, op: Op) -> bool { forall|j: int| 0 <= j < m ==> item_ok(#[trigger] l.items@[j], op) }
+pub open spec fn lists_ok(attrs: Seq<TokenStream>, n: int, op: Op) -> bool { forall|i: int| 0 <= i < n ==> list_ok(#[trigger] lst(attrs, i), lst(attrs, i).items@.len() as int, op) }
+/// one of the first m entries of the list names form f
+pub open spec fn list_has(l: ArgList, m: int, f: OpForm) -> bool decreases m { if m <= 0 { false } else { list_has(l, m - 1, f) || (op_of(l.items@[m - 1])->Ok_0).form == f } }
+/// one of the first n lists (if need_dump: one that says `dump`) names form f - `dump` is shared by the list it is written in (C19)
+pub open spec fn lists_have(attrs: Seq<TokenStream>, n: int, f: OpForm, need_dump: bool) -> bool decreases n {
+    if n <= 0 { false } else { lists_have(attrs, n - 1, f, need_dump) || ((need_dump ==> lst(attrs, n - 1).dump) && list_has(lst(attrs, n - 1), lst(attrs, n - 1).items@.len() as int, f)) }
+}
 }
 macro_rules! bail {
     (_, $($arg:tt)*) => { return core::result::Result::Err(verif_error(verif_call_site())) };
@@ -126,17 +127,20 @@ impl Op {
 }
 #[verus_verify]
 impl Args {
-// C15 (impl items): the request is the concatenation of all lists, whichever attribute an entry was written in;
-// C19: `dump` in any list dumps; an entry naming another operator is refused
+// C15 (impl items): a form is requested iff some list names it, whichever sibling attribute it was written in; an entry naming another
+// operator (or a list that does not parse) refuses the request; C19: `dump` is shared by the list it is written in
 //@ fn item_impl.rs Args::from_attr_args
-//@   rewrite R13 R14
+//@   rewrite R14
 //@   spec r => ensures
-//@     | r is Ok <==> all_parse(attrs@, attrs@.len() as int) && forall|i: int| 0 <= i < all_items(attrs@, attrs@.len() as int).len() ==> item_ok(all_items(attrs@, attrs@.len() as int)[i], op),
-//@     | r is Ok ==> r->Ok_0.dump == any_dump(attrs@, attrs@.len() as int)
-//@     |     && r->Ok_0.make_binary == has_form(all_items(attrs@, attrs@.len() as int), all_items(attrs@, attrs@.len() as int).len() as int, OpForm::Binary)
-//@     |     && r->Ok_0.make_assign == has_form(all_items(attrs@, attrs@.len() as int), all_items(attrs@, attrs@.len() as int).len() as int, OpForm::Assign)
-//@   before for attr in attrs ## #[verus_spec(it => invariant it.seq() == attrs@, 0 <= it.index@ <= attrs@.len(), all_parse(attrs@, it.index@), items@ == all_items(attrs@, it.index@), dump == any_dump(attrs@, it.index@))]
-//@   before for item in &items ## #[verus_spec(jt => invariant jt.seq().len() == items@.len(), forall|i: int| 0 <= i < items@.len() ==> *jt.seq()[i] == items@[i], 0 <= jt.index@ <= items@.len(), all_parse(attrs@, attrs@.len() as int), items@ == all_items(attrs@, attrs@.len() as int), dump == any_dump(attrs@, attrs@.len() as int), forall|i: int| 0 <= i < jt.index@ ==> item_ok(items@[i], op), make_binary == has_form(items@, jt.index@, OpForm::Binary), make_assign == has_form(items@, jt.index@, OpForm::Assign))]
+//@     | r is Ok <==> all_parse(attrs@, attrs@.len() as int) && lists_ok(attrs@, attrs@.len() as int, op),
+//@     | r is Ok ==> r->Ok_0.dump_any == any_dump(attrs@, attrs@.len() as int)
+//@     |     && r->Ok_0.make_binary == lists_have(attrs@, attrs@.len() as int, OpForm::Binary, false)
+//@     |     && r->Ok_0.make_assign == lists_have(attrs@, attrs@.len() as int, OpForm::Assign, false)
+//@     |     && r->Ok_0.dump_binary == lists_have(attrs@, attrs@.len() as int, OpForm::Binary, true)
+//@     |     && r->Ok_0.dump_assign == lists_have(attrs@, attrs@.len() as int, OpForm::Assign, true)
+//@   before for attr in attrs ## #[verus_spec(it => invariant it.seq() == attrs@, 0 <= it.index@ <= attrs@.len(), all_parse(attrs@, it.index@), lists_ok(attrs@, it.index@, op), dump_any == any_dump(attrs@, it.index@), make_binary == lists_have(attrs@, it.index@, OpForm::Binary, false), make_assign == lists_have(attrs@, it.index@, OpForm::Assign, false), dump_binary == lists_have(attrs@, it.index@, OpForm::Binary, true), dump_assign == lists_have(attrs@, it.index@, OpForm::Assign, true))]
+//@   before for item in &args.items ## #[verus_spec(jt => invariant jt.seq().len() == args.items@.len(), forall|j: int| 0 <= j < args.items@.len() ==> *jt.seq()[j] == args.items@[j], 0 <= jt.index@ <= args.items@.len(), 0 <= it.index@ < attrs@.len(), parsed(attrs@[it.index@]) == Ok::<ArgList, Error>(args), all_parse(attrs@, it.index@), lists_ok(attrs@, it.index@, op), list_ok(args, jt.index@, op), dump_any == any_dump(attrs@, it.index@ + 1), make_binary == (lists_have(attrs@, it.index@, OpForm::Binary, false) || list_has(args, jt.index@, OpForm::Binary)), make_assign == (lists_have(attrs@, it.index@, OpForm::Assign, false) || list_has(args, jt.index@, OpForm::Assign)), dump_binary == (lists_have(attrs@, it.index@, OpForm::Binary, true) || (args.dump && list_has(args, jt.index@, OpForm::Binary))), dump_assign == (lists_have(attrs@, it.index@, OpForm::Assign, true) || (args.dump && list_has(args, jt.index@, OpForm::Assign))))]
+//@   before let target_op = Op::from_ident(item)?; ## proof! { assert(args.items@[jt.index@ as int] == *item); assert(lst(attrs@, it.index@ as int) == args); }
 //@ end
 }
 // C09 / C16: operand classification looks through parentheses and groups, treats only a plain `&T` as the reference form, terminates and never panics
